@@ -395,7 +395,7 @@ fn parse_case(v: &serde_json::Value) -> Option<Case> {
 pub fn run(opts: &Opts) -> i32 {
     let rep = Report::new(
         opts,
-        "history_enumeration",
+        "exploration",
         "v5 server and v5 client: every ordered sequence (with repetition) of close initiators up to length 2 (quick) / 3 (thorough), \
          each with every settle/no-settle schedule between steps, three control-service answers and idle/busy application state; \
          thorough adds random sequences of length 4-5. Oracle over the peer-side packet stream: at most one DISCONNECT, nothing after it, \
